@@ -464,7 +464,7 @@ def run(tier):
     cw = ParallelEmitter(w, nshard, conj_every=(2 if tier == "quick" else 1), seed=vlib.seed())
     try:
         res = vlib.run_tlc("MC_GridGeom", "MC_GridGeom_%s.cfg" % tier, workers=workers, timeout=3000, on_emit=cw.emit,
-                           heap="8g")
+                           heap="3g")
     except BaseException:
         cw.pool.terminate()
         raise
